@@ -67,12 +67,24 @@ AcaCase(q) ==
       rk == Rank(MatOf(t, n1, n2))
   IN [fam |-> "aca", q |-> q, sh |-> <<n1, n2>>, r |-> r, terms |-> t, dec |-> [j \in 1..r |-> 0],
       tolexp |-> 10, rel |-> FALSE, rank |-> rk, generic |-> Generic(IntMat(t, n1, n2), n1, n2, rk)]
+\* 3-D: aca_3d is a cross approximation of the unfolding  A_(1)  (n1 x n2*n3) whose rows, the matrix slices
+\* A[i,:,:], are themselves recovered by the 2-D algorithm.  "generic" = proven generic position: at most two
+\* terms, no zero entry, and no vanishing 2-minor in the unfolding or in any slice (anything else: FALSE).
+Entry3(t, i, j, k) == FoldLeft(LAMBDA a, q : a + t[q][1][i] * t[q][2][j] * t[q][3][k], 0, [q \in 1..Len(t) |-> q])
+Generic3(t, sh, r) ==
+  LET n1 == sh[1]  n2 == sh[2]  n3 == sh[3]
+      U  == [i \in 1..n1 |-> [cc \in 1..(n2 * n3) |-> Entry3(t, i, ((cc - 1) \div n3) + 1, ((cc - 1) % n3) + 1)]]
+      rk == Rank([i \in 1..n1 |-> [cc \in 1..(n2 * n3) |-> R(U[i][cc])]])
+  IN /\ r <= 2 /\ rk = r
+     /\ Generic(U, n1, n2 * n3, IF rk > 2 THEN 2 ELSE rk)
+     /\ \A i \in 1..n1 : Generic([j \in 1..n2 |-> [k \in 1..n3 |-> U[i][(j - 1) * n3 + k]]], n2, n3, IF rk > 2 THEN 2 ELSE rk)
 Aca3dCase(q) ==
   LET s  == Hash(Salt * 13 + q, 3)
       sh == [k \in 1..3 |-> 2 + (Hash(s, 3 + k) % 4)]
       r  == 1 + (Hash(s, 4) % 3)
-  IN [fam |-> "aca3d", q |-> q, sh |-> sh, r |-> r, terms |-> GTerms(sh, r, s), dec |-> [j \in 1..r |-> 0],
-      tolexp |-> 10, rel |-> FALSE, rank |-> 0, generic |-> FALSE]
+      t  == GTerms(sh, r, s)
+  IN [fam |-> "aca3d", q |-> q, sh |-> sh, r |-> r, terms |-> t, dec |-> [j \in 1..r |-> 0],
+      tolexp |-> 10, rel |-> FALSE, rank |-> 0, generic |-> Generic3(t, sh, r)]
 GreedyCase(q) ==
   LET s  == Hash(Salt * 13 + q, 4)
       d  == 2 + (Hash(s, 2) % 2)
